@@ -38,7 +38,7 @@ class Object(metaclass=ObjectMeta):
     description: ClassVar[str]
 
     def __init_subclass__(cls, *args, **kwargs):
-        if cls.__doc__ and cls.description is NotPassed():
+        if cls.__doc__ is not None and cls.description is NotPassed():
             cls.description = cls.__doc__
 
     def __new__(
